@@ -18,7 +18,66 @@ import (
 	"verifharness/ref"
 )
 
-func init() { monitors["C05"] = monC05 }
+func init() {
+	monitors["C05"] = monC05
+	preludes["C05"] = func(c *child.Ctx) {
+		// the very first 1005/1006 decodes of this process: eight goroutines, frames
+		// prepared beforehand, released together (main.go then repeats this in fresh
+		// processes: anything built lazily meets its first callers side by side)
+		r := ref.NewRand(c.Seed*37 + uint64(c.Batch)*139 + 5)
+		type job struct {
+			b *ref.Base
+			f []byte
+		}
+		var jobs [8][]job
+		for g := range jobs {
+			for len(jobs[g]) < 24 {
+				t := 1005 + (g+len(jobs[g]))%2
+				b := gen.RandBase(r, t)
+				jobs[g] = append(jobs[g], job{b, ref.Frame(ref.EncodeBase(b, t))})
+			}
+		}
+		start := make(chan struct{})
+		var wg sync.WaitGroup
+		var bad atomic.Value
+		for g := range jobs {
+			wg.Add(1)
+			go func(g int) {
+				defer wg.Done()
+				<-start
+				for _, j := range jobs[g] {
+					var why string
+					func() {
+						defer func() {
+							if x := recover(); x != nil {
+								why = fmt.Sprintf("panic: %v", x)
+							}
+						}()
+						f, text, err := decodeBaseDirect(j.b.Type, j.f, slog.LevelInfo)
+						if err != nil {
+							why = "well-formed message rejected: " + err.Error()
+							return
+						}
+						if why = checkBaseFields(j.b, f); why == "" {
+							why = checkBaseText(j.b, text)
+						}
+					}()
+					if why != "" {
+						cj, _ := json.Marshal(baseCase{B: j.b, TypeField: j.b.Type, Cut: -1})
+						bad.Store([2]string{fmt.Sprintf("among the very first type %d decodes of a process, made by eight goroutines at the same time: %s", j.b.Type, why), string(cj)})
+						return
+					}
+				}
+			}(g)
+		}
+		close(start)
+		wg.Wait()
+		if v := bad.Load(); v != nil {
+			c.Violate("field-mismatch", v.([2]string)[0], []byte(v.([2]string)[1]))
+		}
+		c.Count("processes_whose_first_decodes_were_side_by_side", 1)
+	}
+}
 
 type baseCase struct {
 	B         *ref.Base `json:"base"`
@@ -143,7 +202,7 @@ func execC05(c *child.Ctx, k baseCase, cj []byte) {
 	if k.TypeField != b.Type {
 		wantError = true
 	}
-	for _, lvl := range []slog.Level{slog.LevelInfo, slog.LevelDebug} {
+	for _, lvl := range []slog.Level{slog.LevelInfo, slog.LevelDebug, slog.LevelDebug - 4, slog.LevelWarn} {
 		var f *baseFields
 		var text string
 		var err error
